@@ -25,6 +25,7 @@ func init() {
 
 func runC14(c *Ctx) {
 	c.rule("O1", "retry.Do is always bounded (Attempts) and context-bound (Context from a context parameter); RetryIf also passes RetryIf(cond) and LastErrorOnly(true), bounds attempts by RetryMax, runs fn once when disabled and converts context errors", 5)
+	c.rule("O6", "every attempt tests the context before it calls the operation (retry-go only looks at the context while it waits between attempts)", 1)
 	c.rule("O2", "a header-derived number multiplied into a time.Duration is clamped to [0, MaxInt64/multiplier] on every path", 1)
 	c.rule("O3", "the Apply siblings share the Retry-After prologue: consulted only under ConsiderRetryAfter, hint returned exactly when found", 3)
 	c.rule("O4", "fall-backs: constant → min; linear → LinearJitterBackoff(min,max,attempt,resp); exponential → max unless the wait is representable and ≤ max", 3)
@@ -104,8 +105,8 @@ func (c *Ctx) c14RetryDo() {
 		}
 	}
 	good, why := true, ""
-	if o, ok := opts["RetryIf"]; !ok || paramIndex(f, o.Call.Args[0]) < 0 {
-		good, why = false, "the caller's retry condition is not handed to retry.RetryIf: non-retriable errors are retried"
+	if o, ok := opts["RetryIf"]; !ok || !(paramIndex(f, resolveValue(o.Call.Args[0])) >= 0 || c14ConditionLiteral(f, o.Call.Args[0])) {
+		good, why = false, "the caller's retry condition is not handed to retry.RetryIf (as it is, or and-ed with 'the context is not done'): non-retriable errors are retried"
 	}
 	if o, ok := opts["LastErrorOnly"]; !ok {
 		good, why = false, "retry.LastErrorOnly(true) missing: the caller receives an aggregate instead of the last error"
@@ -123,10 +124,16 @@ func (c *Ctx) c14RetryDo() {
 			good, why = false, "the attempt bound does not come from the policy's RetryMax"
 		}
 	}
-	if paramIndex(f, do.Call.Args[0]) < 0 {
-		good, why = false, "the operation retried is not the caller's function"
+	gated := c14GatedAttempt(f, do.Call.Args[0])
+	if paramIndex(f, resolveValue(do.Call.Args[0])) < 0 && !gated {
+		good, why = false, "the operation retried is not the caller's function (as it is, or behind a test of the context)"
 	}
 	c.check(good, "O1", fname(f)+"/options", c.ipos(do), "fn, RetryIf(cond), LastErrorOnly(true), Attempts(RetryMax)", why)
+	// O6: retry-go consults its context only in the select that waits between two attempts; with a zero delay both
+	// cases are ready and one is picked at random. "Not attempted again once the context is done" needs every attempt
+	// to test the context itself before it calls the operation.
+	c.check(gated, "O6", fname(f)+"/attempt-gated", c.ipos(do), "the function retried tests the context before every call of the operation",
+		"the operation is handed to retry.Do as it is: retry-go looks at the context only while waiting between attempts, so with no wait (RetryWaitMin 0, no back-off) the operation is attempted again after the context is done about every other time")
 	// result through ConvertContextError
 	conv := false
 	allInstrs(f, func(in ssa.Instruction) {
@@ -143,7 +150,7 @@ func (c *Ctx) c14RetryDo() {
 	once := false
 	allInstrs(f, func(in ssa.Instruction) {
 		cl, ok := in.(*ssa.Call)
-		if !ok || cl.Call.IsInvoke() || paramIndex(f, cl.Call.Value) < 0 {
+		if !ok || cl.Call.IsInvoke() || paramIndex(f, resolveValue(cl.Call.Value)) < 0 {
 			return
 		}
 		if _, isSig := cl.Call.Value.Type().Underlying().(*types.Signature); !isSig {
@@ -618,4 +625,86 @@ func (c *Ctx) c14Selection() {
 		}
 		c.check(backoff, "O5", fname(g)+"/Backoff", c.pos(g.Pos()), "Backoff = BackOffPolicyFactory(policy).Apply", "the retrying client's back-off is not the policy selected by BackOffPolicyFactory")
 	}
+}
+
+// c14GatedAttempt: v is a function literal of f that returns the context's error when the context is done and
+// otherwise the result of calling f's own operation parameter — exactly once, after the test.
+func c14GatedAttempt(f *ssa.Function, v ssa.Value) bool {
+	mc, ok := stripConv(resolveValue(v)).(*ssa.MakeClosure)
+	if !ok {
+		return false
+	}
+	lit, ok := mc.Fn.(*ssa.Function)
+	if !ok {
+		return false
+	}
+	var gate, op *ssa.Call
+	nCalls := 0
+	allInstrs(lit, func(in ssa.Instruction) {
+		cl, ok := in.(*ssa.Call)
+		if !ok {
+			return
+		}
+		if cl.Call.IsInvoke() && cl.Call.Method.Name() == "Err" && strings.HasSuffix(cl.Call.Value.Type().String(), "context.Context") {
+			gate = cl
+			return
+		}
+		if strings.HasSuffix(calleeFull(&cl.Call), "parallelisation.DetermineContextError") {
+			gate = cl
+			return
+		}
+		if !cl.Call.IsInvoke() {
+			if _, isSig := cl.Call.Value.Type().Underlying().(*types.Signature); isSig && paramIndex(f, resolveValue(cl.Call.Value)) >= 0 {
+				op = cl
+				nCalls++
+			}
+		}
+	})
+	if gate == nil || op == nil || nCalls != 1 {
+		return false
+	}
+	// the context tested is f's context parameter
+	ctxOK := false
+	var cv ssa.Value
+	if gate.Call.IsInvoke() {
+		cv = gate.Call.Value
+	} else {
+		cv = gate.Call.Args[0]
+	}
+	if p, ok := resolveValue(cv).(*ssa.Parameter); ok && p.Parent() == f && strings.HasSuffix(p.Type().String(), "context.Context") {
+		ctxOK = true
+	}
+	return ctxOK && dominates(gate, op) && onNilSide(gate, op) && !inLoop(op)
+}
+
+// c14ConditionLiteral: v is a function literal of f whose result can be true only through a call of f's own condition
+// parameter on the literal's argument.
+func c14ConditionLiteral(f *ssa.Function, v ssa.Value) bool {
+	mc, ok := stripConv(resolveValue(v)).(*ssa.MakeClosure)
+	if !ok {
+		return false
+	}
+	lit, ok := mc.Fn.(*ssa.Function)
+	if !ok {
+		return false
+	}
+	good, n := true, 0
+	allInstrs(lit, func(in ssa.Instruction) {
+		r, ok := in.(*ssa.Return)
+		if !ok || len(r.Results) != 1 {
+			return
+		}
+		n++
+		for _, l := range sources(r.Results[0], deriveOpts{}) {
+			if b, isC := constBool(l); isC && !b {
+				continue
+			}
+			cl, ok := l.(*ssa.Call)
+			if ok && !cl.Call.IsInvoke() && paramIndex(f, resolveValue(cl.Call.Value)) >= 0 && len(cl.Call.Args) == 1 && cl.Call.Args[0] == ssa.Value(lit.Params[0]) {
+				continue
+			}
+			good = false
+		}
+	})
+	return good && n > 0
 }
